@@ -48,6 +48,10 @@ def lgi (s : Stack) : List (Nat × OEv × Nat) := s.offLog
 @[simp] theorem lgi_with_findLog (s : Stack) (x : List (Nat × Nat)) : lgi { s with findLog := x } = lgi s := rfl
 @[simp] theorem lgi_with_findMarks (s : Stack) (x : List (Nat × Nat)) : lgi { s with findMarks := x } = lgi s := rfl
 @[simp] theorem lgi_with_ansLog (s : Stack) (x : List (Nat × Addr × Nat × Nat)) : lgi { s with ansLog := x } = lgi s := rfl
+@[simp] theorem lgi_with_lisLog (s : Stack) (x : List (LId × Bool × SvcKey × Addr)) : lgi { s with lisLog := x } = lgi s := rfl
+@[simp] theorem lgi_logLis (s : Stack) (id : LId) (o : Bool) (k : SvcKey) (a : Addr) : lgi (s.logLis id o k a) = lgi s := rfl
+@[simp] theorem lgi_with_lisDup (s : Stack) (x : Bool) : lgi { s with lisDup := x } = lgi s := rfl
+@[simp] theorem lgi_markDup (s : Stack) (d : Bool) : lgi (s.markDup d) = lgi s := rfl
 @[simp] theorem lgi_logAnswer (s : Stack) (i : Nat) (a : Addr) (d : Nat) : lgi (s.logAnswer i a d) = lgi s := rfl
 @[simp] theorem lgi_markFind (s : Stack) (n : Nat) : lgi (s.markFind n) = lgi s := rfl
 @[simp] theorem lgi_with_subDup (s : Stack) (x : Bool) : lgi { s with subDup := x } = lgi s := rfl
@@ -204,13 +208,13 @@ def lgi (s : Stack) : List (Nat × OEv × Nat) := s.offLog
   rw [foldl_pres lgi _ (fun s p => by frame_cases)]
 
 @[simp] theorem lgi_watchService (s : Stack) (f : Service) (l : Listener) : lgi (s.watchService f l) = lgi s := by
-  unfold watchService; simp only []; rw [lgi_replay]; rfl
+  unfold watchService; simp only []; rw [lgi_markDup, lgi_replay]; rfl
 @[simp] theorem lgi_stopWatchService (s : Stack) (f : Service) (l : Listener) : lgi (s.stopWatchService f l) = lgi s := by
   unfold stopWatchService; simp only []; split
   · simp
   · rw [lgi_replay]; rfl
 @[simp] theorem lgi_watchAllServices (s : Stack) (id : LId) : lgi (s.watchAllServices id) = lgi s := by
-  unfold watchAllServices; rw [lgi_replay]; rfl
+  unfold watchAllServices; rw [lgi_markDup, lgi_replay]; rfl
 @[simp] theorem lgi_stopWatchAllServices (s : Stack) (id : LId) : lgi (s.stopWatchAllServices id) = lgi s := by
   unfold stopWatchAllServices; split
   · simp
